@@ -115,6 +115,15 @@ def closed_forms(ref):
 
 
 def run_style(style):
+    try:
+        return _run_style(style)
+    except Exception:      # noqa: BLE001 - an exception inside aurel
+        import traceback
+        return {'style': style, 'checks': 1, 'points': 1,
+                'bad': [('raised', traceback.format_exc()[-400:])]}
+
+
+def _run_style(style):
     rel, inp, ref = build(style)
     cf = closed_forms(ref)
     if style == 'Tdown4':
